@@ -319,6 +319,9 @@ type vFamily struct {
 	Rest   []vBlobSpec
 	Levels [][]vBlobSpec // when set: the alphabet of the i-th blob (overrides First/Rest)
 	Dups   bool
+	// Twins adds, for the previous blob and for the one before it, the events "same namespace and
+	// byte-identical payload under the other share version" and (for v1) "... under another signer"
+	Twins bool
 }
 
 func vAlpha(nss string, vers []int, sizes ...string) []vBlobSpec {
@@ -361,6 +364,10 @@ func vC11Families(tier string) []vFamily {
 			// blob preceded by layout padding can END in the row it started in, with another blob after it
 			{Name: "row-wider-than-a-padded-blob", Txs: []int{0, 1}, Groups: []string{"sep"}, Depth: 4,
 				Levels: [][]vBlobSpec{vAlphaFixed("C", "4100S:0"), vAlphaFixed("A", "S:0"), vAlphaFixed("A", "65S:1"), vAlphaFixed("A", "S:0", "1B:1")}},
+			// byte-identical payloads under different share versions / signers, adjacent or with one blob
+			// between, 1-share and multi-share, in squares narrow enough that they cross row boundaries
+			{Name: "same-payload-twins", Txs: all3, Groups: []string{"sep"}, Depth: 3, Dups: true, Twins: true,
+				First: vAlpha("A", both, "1B", "S+1", "3S"), Rest: append(vAlpha("A", both, "1B", "S+1", "3S"), vAlphaFixed("B", "S+1:1")...)},
 			{Name: "pairs-one-tx", Txs: []int{1}, Groups: []string{"one"}, Depth: 2, Dups: true,
 				First: vAlpha("B", both, pairSizes...), Rest: vAlpha("ABC", both, pairSizes...)},
 			{Name: "triples-one-namespace", Txs: all3, Groups: []string{"one"}, Depth: 3, Dups: true,
@@ -382,6 +389,10 @@ func vC11Families(tier string) []vFamily {
 		{Name: "row-wider-than-a-padded-blob", Txs: all3, Groups: []string{"sep"}, Depth: 4,
 			Levels: [][]vBlobSpec{vAlphaFixed("C", "4100S:0"), append(vAlphaFixed("A", "S:0", "65S:1"), vAlphaFixed("B", "S:0")...),
 				vAlphaFixed("A", "65S:1", "S:0", "129S:0"), append(vAlphaFixed("A", "S:0", "1B:1"), vAlphaFixed("B", "S:1")...)}},
+		{Name: "same-payload-twins", Txs: []int{0, 2}, Groups: []string{"sep"}, Depth: 4, Dups: true, Twins: true,
+			First: vAlpha("A", both, "1B", "S+1", "3S"), Rest: append(vAlpha("A", both, "1B", "S+1", "3S"), vAlphaFixed("B", "S+1:1")...)},
+		{Name: "same-payload-twins-multi-row", Txs: []int{1}, Groups: []string{"sep"}, Depth: 3, Dups: true, Twins: true,
+			First: vAlpha("A", both, "S", "17S", "65S"), Rest: vAlpha("A", both, "S", "17S", "65S")},
 		{Name: "triples-wide", Txs: both, Groups: []string{"one"}, Depth: 3, Dups: true,
 			First: vAlphaFixed("AB", "S:0", "65S:0", "129S:1", "257S:0"), Rest: vAlphaFixed("AB", "S:0", "65S:0", "129S:1", "257S:0")},
 		{Name: "triples-free-grouping", Txs: []int{0, 2}, Groups: []string{"free"}, Depth: 3, Dups: true,
@@ -432,12 +443,36 @@ func (s *vBlkSys) Enabled() []string {
 	if s.fam.Dups && len(s.spec.Blobs) > 0 {
 		ev = append(ev, "dup", "near")
 	}
+	if s.fam.Twins {
+		for back := 1; back <= 2 && back <= len(s.spec.Blobs); back++ {
+			ev = append(ev, fmt.Sprintf("twin-ver:%d", back))
+			if s.spec.Blobs[len(s.spec.Blobs)-back].Ver == 1 {
+				ev = append(ev, fmt.Sprintf("twin-sig:%d", back))
+			}
+			if back == 2 {
+				ev = append(ev, "dup:2")
+			}
+		}
+	}
 	return ev
 }
 
 func (s *vBlkSys) Apply(ev string) error {
 	var nb vBlobSpec
 	switch {
+	case strings.HasPrefix(ev, "twin-ver:") || strings.HasPrefix(ev, "twin-sig:") || ev == "dup:2":
+		back := int(ev[len(ev)-1] - '0')
+		if back < 1 || back > len(s.spec.Blobs) {
+			return fmt.Errorf("harness: %s on a block of %d blobs", ev, len(s.spec.Blobs))
+		}
+		nb = s.spec.Blobs[len(s.spec.Blobs)-back]
+		nb.Join = false
+		switch {
+		case strings.HasPrefix(ev, "twin-ver:"):
+			nb.Ver, nb.Twin = 1-nb.Ver, !nb.Twin // same payload, other share version
+		case strings.HasPrefix(ev, "twin-sig:"):
+			nb.Sig++ // same payload and version, another signer
+		}
 	case ev == "dup" || ev == "near":
 		if len(s.spec.Blobs) == 0 {
 			return fmt.Errorf("harness: %s on an empty block", ev)
@@ -514,6 +549,16 @@ func vNontrivial(b *vBlock) (bool, []string) {
 			break
 		}
 	}
+	// same namespace, byte-identical payload, different share version or signer (so different commitments)
+twins:
+	for i, r := range b.Refs {
+		for _, o := range b.Refs[i+1:] {
+			if o.NS.Equals(r.NS) && bytes.Equal(o.Data, r.Data) && !bytes.Equal(o.Commitment, r.Commitment) {
+				why = append(why, "same-payload-twins")
+				break twins
+			}
+		}
+	}
 	return len(why) > 0, why
 }
 
@@ -523,7 +568,8 @@ func TestVerifC11(t *testing.T) {
 	rep.Rule = "explicit-state BFS over block-construction histories: event = append one blob (namespace x share version x size class from the " +
 		"family's alphabet, or an exact / last-byte-differing duplicate of the previous blob), one search per (family, number of ordinary txs, " +
 		"blob-tx grouping); state = the square the real go-square Builder lays out, identified by the hash of its ODS; distinct = distinct ODS; " +
-		"non-trivial = the square has layout padding inside a user namespace, a blob crossing a row boundary, several blobs in one namespace or byte-identical blobs"
+		"non-trivial = the square has layout padding inside a user namespace, a blob crossing a row boundary, several blobs in one namespace, byte-identical blobs, " +
+		"or blobs with byte-identical payload under different share versions / signers (twin events: the previous blob or the one before it re-posted under the other share version or another signer)"
 	rep.Assumptions = []string{
 		"reference = the go-square Builder's own bookkeeping (FindBlobStartingIndex) and inclusion.CreateCommitment, cross-checked share by share against the exported square before every use",
 		"the getter under the blob service does what store.Getter does on an accessor (eds.NamespaceData over the rsmt2d square); network/getter faults are out of scope (C06)",
@@ -636,7 +682,7 @@ func TestVerifC11(t *testing.T) {
 		}
 		famReport[fam.Name] = map[string]any{
 			"depth": fam.Depth, "ordinary_txs": fam.Txs, "grouping": fam.Groups, "first_alphabet": vSpecNames(fam.First),
-			"rest_alphabet": vSpecNames(fam.Rest), "level_alphabets": vLevelNames(fam.Levels), "dup_events": fam.Dups, "states": fStates, "transitions": fTrans, "completed": fComplete,
+			"rest_alphabet": vSpecNames(fam.Rest), "level_alphabets": vLevelNames(fam.Levels), "dup_events": fam.Dups, "twin_events": fam.Twins, "states": fStates, "transitions": fTrans, "completed": fComplete,
 		}
 	}
 	rep.Count(evals, nontrivial, states, transitions)
